@@ -261,6 +261,10 @@ impl Ctx {
         if let Some(t) = tape {
             body["tape"] = json!(t);
         }
+        // harness builds of another configuration of the library name it, so that `./check --replay` picks them again
+        if let Ok(c) = std::env::var("VERIF_CONFIGURATION") {
+            body["configuration"] = json!(c);
+        }
         let txt = serde_json::to_string_pretty(&body).unwrap();
         let h = fnv1a(txt.as_bytes());
         let dir = Path::new(VERIF_ROOT).join("replays").join(&self.prop);
